@@ -111,6 +111,35 @@ theorem decorated_send_commands_exact {P : Bytes → Bool} {cfg : Cfg} {dv : Lin
         List.flatten_cons, List.flatten_nil, List.append_nil]
       rw [hw2, hwr]; simp [List.append_assoc]
 
+/-- **the timed read loop over a decorating device**: `send_input_and_read` against the decorating device, for every
+    decoration, every segmentation (cuts inside sequences included) AND every pattern of quiet intervals (a read
+    that times out while the beginning of a sequence is held back included), returns exactly `expected` when the
+    expected outputs are foreign to the response text — the combination the timed scenario family exercises on the
+    real code (pauses at offsets inside escape sequences) -/
+theorem decorated_send_and_read_exact {P : Bytes → Bool} {cfg : Cfg} {dv : LineDev} (hf : Fits P cfg dv)
+    (D : Nat → Bytes → Bytes) (hD : Decorates D) (input : Bytes) (hg : GoodCmd P dv input) (stripPrompt : Bool)
+    (outs : List Bytes) (outPat : Pat)
+    (hquiet : ∀ (L t' b : Bytes), (∀ x ∈ L, isWs x = true) → t' <+: dv.trail →
+      b <+: L ++ dv.rbody input ++ NL :: dv.prompt ++ t' → outsSeen cfg outs outPat b = false)
+    (pauses : List Bool) (w : Wire) (hres : ∀ x ∈ w.avail, isHws x = true) (hheld : w.held = []) (n : Nat) :
+    ∃ raw w', sendInputAndRead cfg (decOnWrite dv D) input stripPrompt outs outPat pauses none (w, ([], n)) =
+        some ((raw, expected cfg dv stripPrompt input), (w', ([], n + 2))) ∧
+      w'.writes = w.writes ++ [input, cfg.ret] := by
+  obtain ⟨raw, w', _, hs, ⟨L, t', hL, ht, hraw⟩, hw, _, _⟩ :=
+    decorated_send_input_exact hf D hD input hg stripPrompt w hres hheld n
+  refine ⟨raw, w', ?_, hw⟩
+  apply send_and_read_eq_send_input cfg (decOnWrite dv D) input stripPrompt outs outPat pauses (w, ([], n)) raw _ _ hs
+  · unfold promptSeen
+    have : processReadBuf cfg.depth [] = [] := by
+      obtain ⟨a, c, h⟩ := processReadBuf_infix cfg.depth []
+      have h' : a = [] ∧ processReadBuf cfg.depth [] = [] ∧ c = [] := by simpa using h
+      exact h'.2.1
+    rw [this, hf.search_lines]
+    have hb := hf.blank [] rfl
+    simp [splitNL, hb]
+  · intro b hb
+    exact hquiet L t' b hL ht (by rw [← hraw]; exact hb)
+
 /-! non-vacuity: a decoration that puts an SGR sequence in front of every even burst and CR + ESC 7 behind it,
     the example pattern / device / command of C01.lean (output longer than the window), arbitrary cuts — the
     read boundaries may fall anywhere inside the sequences -/
@@ -166,6 +195,14 @@ example (cuts : List Nat) :
     [COp.prompt, COp.cmd exCmd, COp.prompt] (by intro i hi; simp at hi; subst hi; exact exGood)
     { avail := [32], cuts := cuts } (by intro x hx; simp at hx; subst hx; decide) rfl 0
   ⟨rs, w', n', h1, by simpa [expectedOp, exDev] using h2⟩
+
+/-- the timed read over the decorated example device: arbitrary cuts, arbitrary quiet intervals -/
+example (cuts : List Nat) (pauses : List Bool) :
+    ∃ raw w', sendInputAndRead exCfg (decOnWrite exDev exD) exCmd true tmOuts tmPat pauses none
+        ({ avail := [32], cuts := cuts }, ([], 0)) = some ((raw, expected exCfg exDev true exCmd), (w', ([], 2))) :=
+  let ⟨raw, w', h1, _⟩ := decorated_send_and_read_exact exFits exD exD_decorates exCmd exGood true tmOuts tmPat tm_quiet pauses
+    { avail := [32], cuts := cuts } (by intro x hx; simp at hx; subst hx; decide) rfl 0
+  ⟨raw, w', h1⟩
 
 /-- the decoration really is on the wire: the first burst of the example device's answer to the return -/
 example : (decOnWrite exDev exD (exCmd, 0) [NL]).2.take 6 = [ESC, 91, 48, 109, NL, 108] := by decide
